@@ -18,13 +18,13 @@ theorem subsumeProfile_eq : Gen.C20.subsumeProfile = modelProfile := by decide
 theorem subsumeProfile_type : Gen.C20.subsumeProfile_type = "subsume.Profile" := by decide
 
 theorem pin_trim_Files : Gen.C20.pin_trim_Files = "fd38f297ce180caa" := by decide
-theorem pin_trim_filesV3 : Gen.C20.pin_trim_filesV3 = "a1de1a7b2affd3b2" := by decide
+theorem pin_trim_filesV3 : Gen.C20.pin_trim_filesV3 = "9aad79a964bdf4dd" := by decide
 theorem pin_trim_trimmerV3_findStaticDependencies : Gen.C20.pin_trim_trimmerV3_findStaticDependencies = "1310e081cb75fbb7" := by decide
 theorem pin_trim_trimmerV3_findPatterns : Gen.C20.pin_trim_trimmerV3_findPatterns = "06abce3aba5b76fb" := by decide
 theorem pin_trim_trimmerV3_findDisjunctions : Gen.C20.pin_trim_trimmerV3_findDisjunctions = "4e322769923cc2da" := by decide
 theorem pin_trim_trimmerV3_keepAllChildren : Gen.C20.pin_trim_trimmerV3_keepAllChildren = "9220ff521149747c" := by decide
 theorem pin_trim_trimmerV3_findConjunctForStruct : Gen.C20.pin_trim_trimmerV3_findConjunctForStruct = "2b54185921bba89a" := by decide
-theorem pin_trim_trimmerV3_findRedundancies : Gen.C20.pin_trim_trimmerV3_findRedundancies = "17f09d04460dfe84" := by decide
+theorem pin_trim_trimmerV3_findRedundancies : Gen.C20.pin_trim_trimmerV3_findRedundancies = "eceb1b0821319701" := by decide
 theorem pin_trim_trimmerV3_linkResolvers : Gen.C20.pin_trim_trimmerV3_linkResolvers = "6441a1d1c4f22729" := by decide
 theorem pin_trim_trimmerV3_linkResolversOrig : Gen.C20.pin_trim_trimmerV3_linkResolversOrig = "2063d6aa19bb00da" := by decide
 theorem pin_trim_trimmerV3_linkStructComprehension : Gen.C20.pin_trim_trimmerV3_linkStructComprehension = "d8d2964c8bbc7122" := by decide
